@@ -2,7 +2,7 @@
    `exact`, so it is checked to be convertible with it); proofs in RcP.v (strong side) and RcWeakP.v (weak side) *)
 From Coq Require Import ZArith List Bool Lia Arith.
 Import ListNotations.
-Require Import Params StateW DisposeW ModularW RcSnapCheck RcSnapP RcSnapInvP RcWSnapInvP Rc RcSpec RcP RcWeakP.
+Require Import Params StateW DisposeW ModularW RcSnapCheck RcSnapP RcSnapInvP RcWSnapInvP Rc RcSpec RcP RcWeakP RcNoOrphanP.
 Local Open Scope Z_scope.
 
 Theorem C04_at_most_once_in_order :
@@ -43,3 +43,16 @@ Theorem C04_final :
 Proof. exact RcWSnapInvP.C04_final. Qed.
 Print Assumptions C04_final.
 
+(* ---- NOTHING IS ORPHANED (RcNoOrphanP.v; corollary of the count invariants): every object whose block is not yet freed has a
+   counted owner or exactly one destruction attempt (not destructed); exactly one disposer at work (destructed, payload not yet
+   dropped); a weak owner, the strong side's share or exactly one try_dealloc (payload dropped).  With C15 (every deferred
+   function is eventually run) this is the logical content of 'nothing leaks at quiescence' *)
+Theorem C04_no_orphan :
+  forall (s0 : state) (sched : list (nat * list Z)), run_ok s0 sched ->
+  let s := RcSpec.mrun s0 sched in
+  forall (o : nat) (ob : obj), o <> O -> geto s o = Some ob -> freed ob = false ->
+    (destructed (word ob) = false -> 0 < owners s o \/ attempts s o = 1) /\
+    (destructed (word ob) = true -> dropped ob = false -> RcWeakP.disp s o = 1) /\
+    (dropped ob = true -> 0 < wowners s o \/ 0 < RcWeakP.gfr s o \/ dealloc_attempts s o = 1).
+Proof. exact RcNoOrphanP.C04_no_orphan. Qed.
+Print Assumptions C04_no_orphan.
